@@ -50,5 +50,15 @@ for id in C07 C12; do $E $id rename-sortednames-locals cmd/swagger/commands/diff
 for id in C07 C08; do $E $id rename-parammappings-locals generator/operation.go 's/\bprevious\b/earlier/g' 's/\bseenIDs\b/taken/g' 's/\bidMapping\b/goNames/g'; done
 $E C12 nil-test-after-resolution cmd/swagger/commands/diff/type_adapters.go 's/^\t\tif schema == nil {$/\t\tif nil == schema {/'
 $E C15 rename-readignores-locals cmd/swagger/commands/diff.go 's/\bignoreDiffs\b/entries/g' 's/\bbyteValue\b/raw/g' 's/\bjsonFile\b/fh/g'
-$E C09 rename-padcomment-locals generator/template_repo.go 's/\bfor i, line := range lines\b/for n, text := range lines/' 's/strings.HasPrefix(line, "+build")/strings.HasPrefix(text, "+build")/' 's/lines\[i\] = "\[+\]" + strings.TrimPrefix(line, "+")/lines[n] = "[+]" + strings.TrimPrefix(text, "+")/'
+$E C09 rename-padcomment-locals generator/template_repo.go 's/\bfor i, line := range lines\b/for n, row := range lines/' 's/if text := strings.TrimLeft(line, " \\t"); strings.HasPrefix(text, "+build") {/if rest := strings.TrimLeft(row, " \\t"); strings.HasPrefix(rest, "+build") {/' 's/lines\[i\] = line\[:len(line)-len(text)\] + "\[+\]" + strings.TrimPrefix(text, "+")/lines[n] = row[:len(row)-len(rest)] + "[+]" + strings.TrimPrefix(rest, "+")/'
 $E C10 rename-flatten-locals generator/spec.go 's/\bspecDoc\b/document/g'
+# round 8: equivalent spellings of the constructs the round-8 rules look at
+for id in C01 C04; do $E $id rename-serializers-locals generator/media.go 's/\buniqueSerializerGroups\b/groupsByName/g' 's/\buniqueSerializers\b/byMediaType/g'; done
+$E C01 rename-discriminator-locals generator/discriminators.go 's/\btpe\b/goType/g' 's/\bbt\b/base/g' 's/\bdce\b/child/g'
+$E C13 rename-wideness-rows cmd/swagger/commands/diff/reporting.go 's/^\t"integer.int32": 0,$/\t"integer.int32": 0, \/\/ narrowest/'
+for id in C13 C14; do $E $id rename-media-locals cmd/swagger/commands/diff/spec_analyser.go 's/\bconsumes1\b/oldConsumes/g' 's/\bconsumesLocation\b/consumesAt/g'; done
+$E C16 rename-retype-locals codescan/schema.go 's/\bisString\b/quoted/g' 's/\bsfName\b/formatName/g'
+$E C17 rename-processdecl-locals codescan/application.go 's/\bisNamed\b/named/g' 's/\bcomments\b/doc/g'
+$E C17 rename-responses-locals codescan/parser.go 's/\barrays\b/depth/g' 's/\brefTarget\b/target/g'
+$E C05 rename-additional-locals generator/templates/serializers/additionalpropertiesserializer.gotmpl 's/\bstage2\b/extras/g' 's/\bstage1\b/declared/g'
+$E C03 rename-newparams-locals generator/templates/server/parameter.gotmpl 's/\bqvDefault\b/dflt/g'
